@@ -54,6 +54,8 @@ def units(tier, seed):
                 # the same timeline at UTM-scale global coordinates (objects 1-2 m per frame at |x|, |y| of several 1e5 m)
                 if nfr == 2 and frame != "base_link_tilt" and not neg:
                     u.append(dict(nfr=nfr, frame=frame, neg=neg, far=True, pats=[list(map(list, p)) for p in pats]))
+                    # instances whose annotated category differs between the samples (same uuid)
+                    u.append(dict(nfr=nfr, frame=frame, neg=neg, relabel=True, pats=[list(map(list, p)) for p in pats]))
     return u
 
 
@@ -72,7 +74,7 @@ def queries(seed, nfr):
 
 def run_unit(unit, acc):
     for pat in unit["pats"]:
-        check_case(dict(nfr=unit["nfr"], frame=unit["frame"], neg=unit["neg"], pres=pat, queries=queries(_SEED[0], unit["nfr"]), tols=TOLS, far=bool(unit.get("far"))), acc)
+        check_case(dict(nfr=unit["nfr"], frame=unit["frame"], neg=unit["neg"], pres=pat, queries=queries(_SEED[0], unit["nfr"]), tols=TOLS, far=bool(unit.get("far")), relabel=bool(unit.get("relabel"))), acc)
 
 
 FAR = (-400000.0, 300000.0)   # UTM-scale global coordinates
@@ -116,10 +118,13 @@ def _obj(u, k, frame, neg, case=None):
     if frame == "base_link_tilt":
         return _obj_tilt(u, k)
     x, y, yaw = _P(u, k, case)
+    lab = "CAR"
+    if case is not None and case.get("relabel"):   # an instance whose annotated category changes from sample to sample keeps its id
+        lab = {"A": ["PEDESTRIAN", "BICYCLE", "PEDESTRIAN", "MOTORBIKE"], "B": ["CAR", "TRUCK", "BUS", "CAR"], "C": ["UNKNOWN", "CAR", "CAR", "UNKNOWN"]}[u][k]
     if frame == "base_link":
         x, y, yaw = geom.map_to_ego(x, y, yaw, _E(k, case))
-    return G.mk3d(dict(x=x, y=y, yaw=yaw, qneg=neg, uuid=u, label="CAR", vel=[1.0, 0.0, 0.0], size=[1.0, 2.0, 1.0], pts=5, t=TIMES[k]), "base_link", None) \
-        if frame == "base_link" else G.mk3d(dict(x=x, y=y, yaw=yaw, qneg=neg, uuid=u, label="CAR", vel=[1.0, 0.0, 0.0], size=[1.0, 2.0, 1.0], pts=5, t=TIMES[k]), "map", (0.0, 0.0, 0.0))
+    return G.mk3d(dict(x=x, y=y, yaw=yaw, qneg=neg, uuid=u, label=lab, vel=[1.0, 0.0, 0.0], size=[1.0, 2.0, 1.0], pts=5, t=TIMES[k]), "base_link", None) \
+        if frame == "base_link" else G.mk3d(dict(x=x, y=y, yaw=yaw, qneg=neg, uuid=u, label=lab, vel=[1.0, 0.0, 0.0], size=[1.0, 2.0, 1.0], pts=5, t=TIMES[k]), "map", (0.0, 0.0, 0.0))
 
 
 def _frames(case):
